@@ -132,9 +132,17 @@ func NewEnv(rng *rand.Rand, first uint64, n int, lookback uint64) *Env {
 		pw[i] = new(big.Int).Lsh(pw[i], 24)
 	}
 	pw[m-1] = big.NewInt(1 + int64(rng.Intn(3)))
+	// static: every instance has the same committee keys (hence the same power-table CID and
+	// supplemental data), as on a network whose power table does not change: signatures and
+	// aggregates of one instance then differ from those of another only through the instance number
+	static := rng.Intn(3) == 0
 	for k := 0; k < n; k++ {
 		inst := first + uint64(k)
-		com, err := vfix.NewCommittee(uint32(7000+k), ids, pw, []byte(fmt.Sprintf("beacon-%d", inst)))
+		universe := uint32(7000 + k)
+		if static {
+			universe = 7000
+		}
+		com, err := vfix.NewCommittee(universe, ids, pw, []byte(fmt.Sprintf("beacon-%d", inst)))
 		if err != nil {
 			panic(err)
 		}
